@@ -357,8 +357,13 @@ CfdpExp(op, a) ==
     [] op = "ctlv.rt" ->
          IF ~CtlvBuildable(a.cls, a.p) THEN ExpRej(<<"value">>)
          ELSE LET w == CtlvEnc(a.cls, a.p) IN
-              [octets |-> w, plen |-> Len(w), dec |-> a.p, dplen |-> Len(w), repack |-> w, eq |-> TRUE,
-               t |-> CtlvType(a.cls)]
+              IF a.cls \in {"fsreq", "fsresp"}
+              THEN \* a decoded filestore TLV whose first file name is changed before its first pack() packs the new parameters
+                   LET q == [a.p EXCEPT !.n1 = IF Len(a.p.n1) < 200 THEN a.p.n1 \o <<122>> ELSE <<122>>] IN
+                   [octets |-> w, plen |-> Len(w), dec |-> a.p, dplen |-> Len(w), repack |-> w, eq |-> TRUE,
+                    t |-> CtlvType(a.cls), edit |-> IF CtlvBuildable(a.cls, q) THEN CtlvEnc(a.cls, q) ELSE <<>>]
+              ELSE [octets |-> w, plen |-> Len(w), dec |-> a.p, dplen |-> Len(w), repack |-> w, eq |-> TRUE,
+                    t |-> CtlvType(a.cls)]
     [] op = "ctlv.unpack" ->
          LET d == CtlvDec(a.cls, a.octets)
              t == TlvDec(a.octets)
